@@ -33,7 +33,7 @@ class Untranslatable(Exception):
 
 def lty(t):
     if isinstance(t, str):
-        return {"Int": "Int", "Nat": "Nat", "Bool": "Bool", "Str": "String", "Rat": "Rat", "Float": "Float", "Unit": "Unit", "Stream": "(List Tok)", "OV": "OV"}.get(t, t)
+        return {"Int": "Int", "Nat": "Nat", "Bool": "Bool", "Str": "String", "Rat": "Rat", "Float": "Float", "Unit": "Unit", "Stream": "(List Tok)", "OV": "OV", "Tok": "Tok"}.get(t, t)
     if t[0] == "List":
         return "(List %s)" % lty(t[1])
     if t[0] == "Opt":
@@ -46,6 +46,8 @@ def lty(t):
         return "(" + " → ".join(lty(x) for x in t[1] + [t[2]]) + ")"
     if t[0] == "Prod":
         return "(" + " × ".join(lty(x) for x in t[1:]) + ")"
+    if t[0] == "AssocL":
+        return "(List (%s × %s))" % (lty(t[1]), lty(t[2]))
     raise Untranslatable("type %r" % (t,))
 
 
@@ -179,6 +181,25 @@ class Proc(object):
         if isinstance(e, ast.Attribute):
             return self.attribute(e, env)
         if isinstance(e, ast.Subscript):
+            # dictionary-valued attribute of a record, declared as an opaque look-up:  pot.electronDensityFunction[species]
+            if isinstance(e.value, ast.Attribute):
+                try:
+                    recv, rty = self.expr(e.value.value, env)
+                except Untranslatable:
+                    recv, rty = None, None
+                if isinstance(rty, tuple) and rty[0] == "Rec":
+                    sub = self.spec.get("subscripts", {}).get((rty[1], e.value.attr))
+                    if sub:
+                        lname, kty, vty = sub
+                        return ("(%s %s %s)" % (lname, recv, self.coerce(*self.expr(e.slice, env), kty)), vty)
+            # a local association list (a dict built by the function itself): the most recent binding of the key
+            bt, bty = self.expr(e.value, env)
+            if isinstance(bty, tuple) and bty[0] == "AssocL":
+                raise Untranslatable("plain subscript of a local dictionary (may raise KeyError): use .get")
+            if isinstance(bty, tuple) and bty[0] == "List":
+                it, ity = self.expr(e.slice, env)
+                if ity in ("Int", "Nat"):
+                    return ("(listGet %s %s)" % (bt, self.coerce(it, ity, "Int")), bty[1])
             raise Untranslatable("subscript %s not known to be in range here" % k)
         if isinstance(e, ast.UnaryOp):
             if isinstance(e.op, ast.Not):
@@ -239,6 +260,10 @@ class Proc(object):
             return ("(match %s with | some (_ :: _) => true | _ => false)" % t, "Bool")
         if ty == "Int":
             return ("(%s != 0)" % t, "Bool")
+        if ty == "Str":
+            return ("(%s != \"\")" % t, "Bool")
+        if ty == ("Opt", "Str"):
+            return ("(match %s with | some s => s != \"\" | none => false)" % t, "Bool")
         raise Untranslatable("truthiness of %s" % lty(ty))
 
     def boolop_value(self, e, env):
@@ -304,6 +329,14 @@ class Proc(object):
     def binop(self, e, env):
         x, xty = self.expr(e.left, env)
         y, yty = self.expr(e.right, env)
+        if isinstance(e.op, ast.Mult) and "OV" in (xty, yty):
+            o, r, rty = (x, y, yty) if xty == "OV" else (y, x, xty)
+            if rty in NUMERIC:
+                return ("(OV.scaled %s %s)" % (self.coerce(r, rty, "Rat"), o), "OV")      # an opaque value times a number: kept symbolic
+            raise Untranslatable("product of opaque values")
+        if isinstance(e.op, ast.Mod) and self.const_str(e.left, env) is not None:
+            # a formatted piece used as a VALUE (collected in a list and joined later): a token
+            return (self.fmt_tok(e, env), "Tok")
         if xty == "Bool":
             x, xty = self.coerce(x, "Bool", "Int"), "Int"
         if yty == "Bool":
@@ -329,6 +362,20 @@ class Proc(object):
             fname = f.id
         elif isinstance(f, ast.Attribute) and isinstance(f.value, ast.Name) and f.value.id in ("self", "cls"):
             fname = f.attr
+        # a nested helper translated on its own
+        if fname in self.spec.get("local_defs", {}):
+            lname, argtys, rty = self.spec["local_defs"][fname]
+            args = [self.coerce(*self.expr(a, env), w) for a, w in zip(e.args, argtys)]
+            if len(args) != len(argtys):
+                raise Untranslatable("arity of %s" % fname)
+            return ("(%s %s)" % (lname, " ".join(args)), rty)
+        # a parameter that is itself a function (a writer handed in by the caller)
+        if isinstance(f, ast.Name) and f.id in env.vars and isinstance(env.vars[f.id][1], tuple) and env.vars[f.id][1][0] == "Fun":
+            fty = env.vars[f.id][1]
+            if len(e.args) != len(fty[1]):
+                raise Untranslatable("arity of %s" % f.id)
+            args = [self.coerce(*self.expr(a, env), w) for a, w in zip(e.args, fty[1])]
+            return ("(%s %s)" % (env.vars[f.id][0], " ".join(args)), fty[2])
         # opaque operations declared for the proc (e.g. self._rows_for_step -> `rows`)
         ops = self.spec.get("ops", {})
         if fname in ops:
@@ -406,6 +453,19 @@ class Proc(object):
                 key = self.coerce(kt_, kty, dty[1])
                 dflt = self.coerce(dt_, dfty, dty[2])
                 return ("((%s.lookup %s).getD %s)" % (d, key, dflt), dty[2])
+        if isinstance(f, ast.Attribute) and f.attr == "join" and len(e.args) == 1 and isinstance(f.value, ast.Constant) and isinstance(f.value.value, str):
+            t, ty = self.expr(e.args[0], env)
+            if ty == ("List", "Tok"):
+                return ("(joinToks %s %s)" % (lstr(f.value.value), t), "Tok")
+        if isinstance(f, ast.Attribute) and f.attr == "get" and len(e.args) == 2 and isinstance(f.value, ast.Name) and f.value.id in env.vars \
+                and isinstance(env.vars[f.value.id][1], tuple) and env.vars[f.value.id][1][0] == "AssocL":
+            d, dty = env.vars[f.value.id]
+            key = self.coerce(*self.expr(e.args[0], env), dty[1])
+            # the default must be the declared "absent" object (an instance of a local class whose methods return constants): look-up result is an Option
+            dflt = e.args[1]
+            if isinstance(dflt, ast.Name) and dflt.id in self.spec.get("absent_objects", {}):
+                return ("(lookupLast %s %s)" % (d, key), ("Opt", dty[2]))
+            raise Untranslatable("default of .get is not a declared absent-object")
         if fname == "StringIO" and not e.args:
             return ("([] : List Tok)", "Stream")
         if isinstance(f, ast.Attribute) and f.attr == "getvalue" and not e.args:
@@ -556,6 +616,14 @@ class Proc(object):
             if set(kw) - set(n for n, _ in fields):
                 raise Untranslatable("keyword not used by the template")
             return "(Tok.mk %s [%s])" % (lstr(re.sub(r"\{\w+(:[^}]*)?\}", lambda m: "{%s}" % (m.group(1) or ""), fmt) + nl), ", ".join(args))
+        try:
+            t, ty = self.expr(e, env)
+        except Untranslatable:
+            t, ty = None, None
+        if ty == "Tok":
+            return "(tokSuffix %s %s)" % (t, lstr(nl)) if nl else t
+        if ty == "Str":
+            return "(Tok.mk %s [OV.str %s])" % (lstr("%s" + nl), t)
         raise Untranslatable("written expression %s" % (self.seg(e) or "")[:50])
 
     def stream_statement(self, c, env):
@@ -583,6 +651,15 @@ class Proc(object):
             if isinstance(xty, tuple) and xty[0] == "List":
                 vt, vty = self.expr(c.args[0], env)
                 return (f.value.id, "(%s ++ [%s])" % (xt, self.coerce(vt, vty, xty[1])), xty, False)
+        # a function-typed parameter / opaque writer that writes into one of its arguments
+        io = self.spec.get("inout_calls", {})
+        nm = f.id if isinstance(f, ast.Name) else None
+        if nm in io:
+            idx = io[nm]
+            if not isinstance(c.args[idx], ast.Name):
+                raise Untranslatable("stream argument of %s is not a variable" % nm)
+            vt, vty = self.call(c, env)
+            return (c.args[idx].id, vt, "Stream", False)
         # a writer called for its effect on a stream argument
         fname = f.id if isinstance(f, ast.Name) else (f.attr if isinstance(f, ast.Attribute) and isinstance(f.value, ast.Name) and f.value.id in ("self", "cls") else None)
         p = self.procs.get((self.spec["file"], fname))
@@ -703,6 +780,34 @@ class Proc(object):
             if self.ret[0] != "Except":
                 raise Untranslatable("raise in a function declared not to raise")
             return "(.error %s)" % self.err_tag(s.exc)
+        if isinstance(s, (ast.FunctionDef, ast.ClassDef)):
+            # nested helper: translated on its own (spec["local_defs"]) or an absent-object class checked by prepare(); nothing to do here
+            if s.name in self.spec.get("local_defs", {}) or s.name in [c for c, _ in self.spec.get("absent_objects", {}).values()]:
+                return self.block(rest, env, k)
+            raise Untranslatable("nested definition %s" % s.name)
+        if isinstance(s, ast.Expr) and isinstance(s.value, ast.Call) and isinstance(s.value.func, ast.Attribute) and s.value.func.attr == "sort" \
+                and isinstance(s.value.func.value, ast.Name) and not s.value.args and not s.value.keywords:
+            xs, xty = self.expr(s.value.func.value, env)
+            if xty == ("List", "Str"):
+                txt, en = self.assign_name(s.value.func.value, "(stableSortBy (fun a b => decide (a ≤ b)) %s)" % xs, xty, env)
+                return txt + self.block(rest, en, k)
+            raise Untranslatable("sort of %s" % (xty,))
+        if isinstance(s, ast.Assign) and len(s.targets) == 1 and isinstance(s.targets[0], ast.Subscript) and isinstance(s.targets[0].value, ast.Name):
+            # d[key] = value  on a local dictionary: a new binding (look-ups take the most recent one)
+            d = s.targets[0].value.id
+            dt, dty = self.expr(s.targets[0].value, env)
+            if isinstance(dty, tuple) and dty[0] == "AssocL":
+                key = self.coerce(*self.expr(s.targets[0].slice, env), dty[1])
+                val = self.coerce(*self.expr(s.value, env), dty[2])
+                txt, en = self.assign_name(s.targets[0].value, "(%s ++ [(%s, %s)])" % (dt, key, val), dty, env)
+                return txt + self.block(rest, en, k)
+            raise Untranslatable("subscript assignment to %s" % (dty,))
+        if isinstance(s, ast.Assign) and len(s.targets) == 1 and isinstance(s.targets[0], ast.Name) and s.targets[0].id in self.spec.get("absent_objects", {}):
+            return self.block(rest, env, k)          # zeroPair = ZeroPair(): the declared absent-object
+        if isinstance(s, ast.Assign) and len(s.targets) == 1 and isinstance(s.targets[0], ast.Name) and isinstance(s.value, ast.Dict) and not s.value.keys \
+                and isinstance(self.spec.get("locals", {}).get(s.targets[0].id), tuple) and self.spec["locals"][s.targets[0].id][0] == "AssocL":
+            txt, en = self.assign_name(s.targets[0], "[]", self.spec["locals"][s.targets[0].id], env)
+            return txt + self.block(rest, en, k)
         if isinstance(s, ast.Assign):
             if len(s.targets) != 1:
                 raise Untranslatable("multiple assignment targets")
